@@ -9,9 +9,20 @@ import (
 	"github.com/Tnze/go-mc/nbt"
 )
 
+// maxNestingDepth bounds how deep lists and compounds may nest: the nesting comes from the input and every
+// level costs a stack frame (same limit as the nbt package and vanilla Minecraft).
+const maxNestingDepth = 512
+
 func (v *Value) UnmarshalNBT(tagType byte, r nbt.DecoderReader) error {
+	return v.unmarshal(tagType, r, 0)
+}
+
+func (v *Value) unmarshal(tagType byte, r nbt.DecoderReader, depth int) error {
 	v.tag = tagType
 	var buf [8]byte
+	if depth > maxNestingDepth {
+		return errors.New("dynbt: exceeded max nesting depth")
+	}
 	switch tagType {
 	default:
 		return fmt.Errorf("unknown Tag %#02x", tagType)
@@ -93,7 +104,7 @@ func (v *Value) UnmarshalNBT(tagType byte, r nbt.DecoderReader) error {
 
 		for i := int32(0); i < length; i++ {
 			field := new(Value)
-			err = field.UnmarshalNBT(t, r)
+			err = field.unmarshal(t, r, depth+1)
 			if err != nil {
 				return err
 			}
@@ -113,7 +124,7 @@ func (v *Value) UnmarshalNBT(tagType byte, r nbt.DecoderReader) error {
 			}
 
 			field := new(Value)
-			err = field.UnmarshalNBT(t, r)
+			err = field.unmarshal(t, r, depth+1)
 			if err != nil {
 				return decodeErr{name, err}
 			}
